@@ -17,8 +17,17 @@ Routes
   cases of the rank-test defects repaired in /repo 988caf7.
 * the property's own statement evaluated on the implementation (independent oracle: Fractions /
   mpmath), on the enclosure inputs and on a larger sweep: this is the search of section 3.5.
+* call forms and histories (round 4): the tolerance arguments rtol / atol are rotated (rtol != atol, one of
+  them zero / left at its default, keyword and positional form) in the check=True tie over Q, in the sweep and
+  in a directed block whose expectation is the documented inequality evaluated in 50-digit arithmetic; every
+  LieTensor whose conversion is judged is an object with a history (conversions of ANOTHER value were taken
+  from it, then it was given its value in place) and X.matrix() is judged against [[s R(q), t], [0, 1]] of
+  the raw components in exact arithmetic; sequences of in-place updates (copy_, item assignment, add_,
+  identity_, writes through .data / tensor()) each followed by the conversions; the same input tensor reused,
+  overwritten in place, handed over non-contiguous / expanded; every tensor argument compared bit for bit
+  before and after each call (keys mutation:<function>).
 """
-import math, itertools
+import math, itertools, zlib, copy
 from ..common import *
 from ..lie import *
 
@@ -30,6 +39,12 @@ RULE = ('X = (unit quaternion, translation, scale): quaternion uniform on S^3 or
         '(dominant x / y / z / w), angle pi +- 1e-12..1e-3 and exactly pi about random and coordinate axes, coordinate-axis rotations, '
         'mask boundary m22 ~ atol, exact ties m00 = m11 / m00 = -m11, identity; translation 0 or 1e-3..1e3; scale 1e-3..1e3 incl. end points; '
         'layouts 3x3 / 3x4 / 4x4; check on / off; direct call and from_matrix; float64 and float32; batch shapes () (n,) (n,n) (a,b) (a,b,c) (0,). '
+        'tolerance arguments: defaults or rtol != atol from 0 .. 0.05 (one of them zero / left at its default; keyword and positional form), matrices s (I + E) R '
+        'with the defect E (one off-diagonal entry, one or all diagonal entries, dense, a reflection, none) sized between the thresholds atol, rtol, atol + rtol and the defaults, '
+        'expectation = the documented inequalities in 50-digit arithmetic (5 %% away from a boundary); every LieTensor is an object with a history (decoy value converted, '
+        'then the value installed by copy_ / item assignment / tensor() / .data / deepcopy), X.matrix() judged against the exact matrix of the components; '
+        'update sequences of 1-3 steps from copy_, item / slice assignment, add_, identity_, writes through tensor() / .data, deepcopy, each followed by all conversions; '
+        'input tensors contiguous / transposed storage / strided sub-block / stride-0 expanded / reused / overwritten in place, compared bit for bit after every call. '
         'A case is (function, group, dtype, layout, check, X); non-trivial = rotation not the identity; distinct by value. '
         'Tolerances: %d eps (quaternion, scale relative), Euler angles %d eps / cos(pitch) (pitch: min(that, %d sqrt(eps))).' % (K_EPS, K_EPS, K_SQRT))
 
@@ -133,14 +148,119 @@ def gen_s(rng):
     return 10 ** rng.uniform(-3, 3)
 
 
-def make_X(pp, torch, g, q, t, s, dname):
+# ---- objects with a history.  A LieTensor whose conversion is judged is never fresh: conversions of ANOTHER
+# value (the decoy) were taken from the very object, then it received its value through an in-place update.
+HIST_SET = ['copy_', 'setitem', 'setitem-rows', 'tensor-view', 'data', 'deepcopy+copy_']
+HIST_TEXT = {'copy_': 'X.copy_(Y)', 'setitem': 'X[...] = Y', 'setitem-rows': 'item / slice assignment X[i] = Y[i]', 'tensor-view': 'X.tensor().copy_(Y)',
+             'data': 'X.data.copy_(Y)', 'deepcopy+copy_': 'X = copy.deepcopy(X0); X.copy_(Y)', 'fresh': 'construction'}
+INSTALL_FAILED = []
+
+
+def decoy_row(g, k=0):
+    """a fixed valid element unlike any generated one (rotation by 1 + k rad about (1,2,3)/sqrt 14)"""
+    a, n = 1.0 + k, math.sqrt(14.0)
+    q = [math.sin(a / 2) * 1 / n, math.sin(a / 2) * 2 / n, math.sin(a / 2) * 3 / n, math.cos(a / 2)]
+    return join_elt(g, [0.5 + k, -1.25, 2.0], q, 1.5 + k)
+
+
+def hist_of(data):
+    return HIST_SET[zlib.crc32(repr(data).encode()) % len(HIST_SET)]
+
+
+def query_all(pp, X):
+    """every conversion the property speaks about, called for whatever it leaves behind on the object"""
+    for name in ('matrix', 'euler', 'rotation', 'translation', 'scale'):
+        try:
+            getattr(X, name)()
+        except Exception:
+            pass
+
+
+def LTH(pp, torch, g, data, dname, op=None):
+    """LieTensor of type g holding `data` (nested lists, any batch shape) on an object with a history;
+    op: one of HIST_SET, 'fresh', or None = chosen from the data (deterministic, so a replay repeats it)"""
+    G, d = getattr(pp, g + '_type'), dt(torch, dname)
+    T = data.detach().clone().to(d) if torch.is_tensor(data) else torch.tensor(data, dtype=d)
+    op = op or hist_of(T.tolist())
+    if op == 'fresh':
+        return pp.LieTensor(T, ltype=G)
+    X = pp.LieTensor(torch.tensor(decoy_row(g), dtype=d).expand(T.shape).clone(), ltype=G)
+    query_all(pp, X)
+    Y = pp.LieTensor(T.clone(), ltype=G)
+    if op == 'deepcopy+copy_':
+        if X.numel() > 0:               # (deepcopy of an EMPTY LieTensor raises in torch's default __deepcopy__: not a conversion, not judged here)
+            X0, X = X, copy.deepcopy(X)
+        X.copy_(Y)
+    elif op == 'copy_':
+        X.copy_(Y)
+    elif op == 'setitem':
+        X[...] = Y
+    elif op == 'setitem-rows':
+        if X.dim() == 1:
+            X[:2] = T[:2]
+            X[2:] = T[2:]
+        else:
+            for i in range(X.shape[0]):
+                X[i] = Y[i]
+    elif op == 'tensor-view':
+        X.tensor().copy_(T)
+    elif op == 'data':
+        X.data.copy_(T)
+    else:
+        raise ValueError(op)
+    if not torch.equal(X.tensor(), T) and len(INSTALL_FAILED) < 5:
+        INSTALL_FAILED.append(dict(kind='install', g=g, dtype=dname, op=op, x=T.tolist()))
+    return X
+
+
+def make_X(pp, torch, g, q, t, s, dname, op=None):
     data = {'SO3': q, 'SE3': t + q, 'RxSO3': q + [s], 'Sim3': t + q + [s]}[g]
-    return pp.LieTensor(torch.tensor(data, dtype=dt(torch, dname)), ltype=getattr(pp, g + '_type'))
+    return LTH(pp, torch, g, data, dname, op)
 
 
-def full_matrix(pp, torch, g, X, t):
+def textbook_matrix(g, xf):
+    """[[s R(q), t], [0, 1]] (3x3 R for SO3), row-major, exact; R(q) = the textbook quaternion rotation matrix
+    (homogeneous form: a quaternion that is unit up to rounding gives R up to the same rounding)"""
+    t, q, sc = split_elt(g, [Fraction(v) for v in xf])
+    x, y, z, w = q
+    xx, yy, zz, ww, xy, xz, xw, yz, yw, zw = x * x, y * y, z * z, w * w, x * y, x * z, x * w, y * z, y * w, z * w
+    R = [[ww + xx - yy - zz, 2 * (xy - zw), 2 * (xz + yw)],
+         [2 * (xy + zw), ww - xx + yy - zz, 2 * (yz - xw)],
+         [2 * (xz - yw), 2 * (yz + xw), ww - xx - yy + zz]]
+    R = [[sc * v for v in row] for row in R]
+    if g == 'SO3':
+        return [v for row in R for v in row]
+    return [v for i in range(3) for v in R[i] + [t[i]]] + [0, 0, 0, 1]
+
+
+def matrix_defect(torch, g, X, M, dname):
+    """X.matrix() against the documented representation [[s R(q), t], [0, 1]] (3x3 R for SO3) evaluated in exact
+    rational arithmetic on the raw components of X, item by item.  Returns a description or None."""
+    eps = feps(dname)
+    n = 3 if g == 'SO3' else 4
+    if tuple(M.shape) != tuple(X.shape[:-1]) + (n, n):
+        return 'X.matrix() has shape %s for lshape %s' % (tuple(M.shape), tuple(X.shape[:-1]))
+    xs = X.tensor().reshape(-1, X.shape[-1]).tolist()
+    ms = M.reshape(-1, n * n).tolist()
+    seen = set()
+    for i, (x, m) in enumerate(zip(xs, ms)):
+        if any(not math.isfinite(v) for v in x) or (tuple(x), tuple(m)) in seen:
+            continue
+        seen.add((tuple(x), tuple(m)))
+        ref = textbook_matrix(g, x)
+        sc = abs(x[-1]) if g in ('RxSO3', 'Sim3') else 1.0
+        for k, (a, b) in enumerate(zip(m, ref)):
+            r_, c_ = divmod(k, n)
+            tol = 32 * eps * sc if (r_ < 3 and c_ < 3) else 0.0
+            if not (abs(Fraction(a) - b) <= tol):
+                return ('item %d: entry (%d,%d) of X.matrix() is %.17g but [[s R(q), t], [0, 1]] of the components %s of X has %.17g there'
+                        % (i, r_, c_, a, x, float(b)))
+    return None
+
+
+def full_matrix(pp, torch, g, X, t, M=None):
     """4x4 matrix carrying the rotation (and scale) of X; SO3 is embedded with translation t"""
-    M = X.matrix()
+    M = X.matrix() if M is None else M
     if g == 'SO3':
         M4 = torch.eye(4, dtype=M.dtype).repeat(M.shape[:-2] + (1, 1))
         M4[..., :3, :3] = M
@@ -160,23 +280,47 @@ def layout(M4, lay):
 ERR_CODES = [('Input size must be', 1), ('not all orthogonal', 2), ('determinant', 3), ('not full rank', 4), ('ltype must be', 5)]
 
 
-def call(pp, torch, via, g, M, check):
-    """-> ('value', tensor) | ('raise', code, text); codes as Model/Convert.v outcome_code"""
-    try:
-        if via == 'from_matrix':
-            Y = pp.from_matrix(M, getattr(pp, g + '_type'), check=check)
+MUTATED = []     # (function, via, g, check, tol, form, input before, input after) of calls that changed their argument
+
+
+def call(pp, torch, via, g, M, check, tol=None, form='kw'):
+    """-> ('value', tensor) | ('raise', code, text); codes as Model/Convert.v outcome_code.
+    tol = None (tolerances left at their defaults) | (rtol, atol), an entry None = left at its default;
+    form 'kw' = rtol= / atol= keywords, 'pos' = positional (check, rtol, atol).
+    The argument is compared bit for bit before / after the call (C06's non-mutation clause, reported by run)."""
+    snap = M.detach().clone() if torch.is_tensor(M) else None
+    args, kw = [check], {}
+    if tol is not None:
+        rt, at = tol
+        if form == 'pos' and rt is not None and at is not None:
+            args += [rt, at]
         else:
-            Y = getattr(pp, FNAME[g])(M, check=check)
-        return ('value', Y)
-    except ValueError as e:
-        for pat, code in ERR_CODES:
-            if pat in str(e):
-                return ('raise', code, str(e)[:120])
-        return ('raise', -1, 'ValueError: ' + str(e)[:120])
-    except RuntimeError as e:
-        return ('raise', 100, 'RuntimeError: ' + str(e)[:120])
-    except Exception as e:  # anything else is not modelled
-        return ('raise', -2, '%s: %s' % (type(e).__name__, str(e)[:120]))
+            if rt is not None:
+                kw['rtol'] = rt
+            if at is not None:
+                kw['atol'] = at
+    if form == 'kw':
+        kw['check'] = args.pop(0)
+    try:
+        try:
+            if via == 'from_matrix':
+                Y = pp.from_matrix(M, getattr(pp, g + '_type'), *args, **kw)
+            else:
+                Y = getattr(pp, FNAME[g])(M, *args, **kw)
+            return ('value', Y)
+        except ValueError as e:
+            for pat, code in ERR_CODES:
+                if pat in str(e):
+                    return ('raise', code, str(e)[:120])
+            return ('raise', -1, 'ValueError: ' + str(e)[:120])
+        except RuntimeError as e:
+            return ('raise', 100, 'RuntimeError: ' + str(e)[:120])
+        except Exception as e:  # anything else is not modelled
+            return ('raise', -2, '%s: %s' % (type(e).__name__, str(e)[:120]))
+    finally:
+        if snap is not None and len(MUTATED) < 20 and (tuple(M.shape) != tuple(snap.shape) or not torch.equal(torch.nan_to_num(M.detach(), nan=12345.0), torch.nan_to_num(snap, nan=12345.0))):
+            MUTATED.append(dict(kind='mutation', via=via, g=g, check=check, tol=list(tol) if tol else None, form=form,
+                                dtype='float64' if snap.dtype == torch.float64 else 'float32', M=snap.tolist()))
 
 
 # ------------------------------------------------------------------------------ the property's oracle
@@ -186,18 +330,75 @@ def mp_num(v):
     return mp.mpf(f.numerator) / mp.mpf(f.denominator)
 
 
-def oracle_roundtrip(pp, torch, via, g, dname, lay, check, q, t, s, shape=()):
+MEM_SET = ['contiguous', 'contiguous', 'transposed-storage', 'sub-block', 'expanded', 'reused', 'overwritten']
+
+
+def relayout(torch, Min, mem, nb):
+    """the same values in another memory layout; nb = number of batch dimensions of Min"""
+    if mem == 'transposed-storage':
+        return Min.mT.contiguous().mT
+    if mem == 'sub-block':
+        big = torch.full(tuple(Min.shape[:-2]) + (Min.shape[-2] + 3, 2 * Min.shape[-1] + 1), 7.0, dtype=Min.dtype)
+        big[..., 2:2 + Min.shape[-2], 1:1 + 2 * Min.shape[-1]:2] = Min
+        return big[..., 2:2 + Min.shape[-2], 1:1 + 2 * Min.shape[-1]:2]
+    if mem == 'expanded' and nb > 0 and Min.numel() > 0:
+        one = Min.reshape((-1,) + tuple(Min.shape[-2:]))[0]
+        if bool((Min == one).all()):
+            return one.expand(Min.shape)           # stride 0 along the batch
+    return Min
+
+
+def fname_of(via, g):
+    return 'from_matrix' if via == 'from_matrix' else FNAME[g]
+
+
+def tol_text(tol, form):
+    if tol is None:
+        return ''
+    return ', ' + ', '.join('%s%r' % ('' if form == 'pos' and None not in tol else n + '=', v) for n, v in zip(('rtol', 'atol'), tol) if v is not None)
+
+
+def oracle_roundtrip(pp, torch, via, g, dname, lay, check, q, t, s, shape=(), tol=None, form='kw', mem=None):
     """property clause 1 on the implementation: from_matrix / mat2X of X.matrix() has the same matrix, a
-    unit quaternion and the same scale.  Returns a description of the failure or None."""
+    unit quaternion and the same scale.  X is an object with a history (make_X), X.matrix() is judged against
+    the exact matrix of the components, the call uses the tolerances `tol` in the form `form` (every float
+    matrix of a valid element is within them) and a memory layout / reuse pattern `mem` of the input.
+    Returns a description of the failure or None."""
     eps = feps(dname)
-    X = make_X(pp, torch, g, q, t, s, dname)
+    data = make_X(pp, torch, g, q, t, s, dname, 'fresh').tensor()
     if shape != ():
-        X = pp.LieTensor(X.tensor().expand(tuple(shape) + X.tensor().shape).clone(), ltype=X.ltype)
-    M4 = full_matrix(pp, torch, g, X, t)
+        data = data.expand(tuple(shape) + data.shape)
+    X = LTH(pp, torch, g, data, dname)
+    hop = hist_of(X.tensor().tolist())
+    Mx = X.matrix()
+    M4 = full_matrix(pp, torch, g, X, t, Mx)
+    why = matrix_defect(torch, g, X, Mx, dname)
+    if why:
+        return 'X.matrix() of a %s %s that received its value by %s after conversions of another value had been taken from the object: %s' % (dname, g, HIST_TEXT[hop], why)
     Min = layout(M4, lay)
-    r = call(pp, torch, via, g, Min, check)
+    mem = mem or MEM_SET[zlib.crc32(repr((q, t, s)).encode()) % len(MEM_SET)]
+    fn = fname_of(via, g)
+    if mem in ('reused', 'overwritten'):
+        # the same tensor object is handed over twice; in between ('overwritten') it holds another valid matrix
+        Mobj = Min.clone()
+        if mem == 'overwritten':
+            Mobj.copy_(layout(full_matrix(pp, torch, g, LTH(pp, torch, g, torch.tensor(decoy_row(g, 1), dtype=Min.dtype).expand(X.shape), dname, 'fresh'), [3.0, 1.0, -2.0]), lay))
+        r0 = call(pp, torch, via, g, Mobj, check, tol, form)
+        if r0[0] == 'raise':
+            return '%s(%s matrix of a valid %s, check=%s%s) raised %s' % (fn, lay, g, check, tol_text(tol, form), r0[2])
+        if mem == 'overwritten':
+            Mobj.copy_(Min)
+        r = call(pp, torch, via, g, Mobj, check, tol, form)
+        r1 = call(pp, torch, via, g, Min.clone(), check, tol, form)
+        if r[0] == 'value' and r1[0] == 'value' and not torch.equal(r[1].tensor(), r1[1].tensor()):
+            return ('%s on a tensor object that was converted before%s returns %s, on a fresh tensor with the same values %s'
+                    % (fn, ' and then overwritten in place (M.copy_)' if mem == 'overwritten' else '', r[1].tensor().reshape(-1, r[1].shape[-1])[0].tolist(),
+                       r1[1].tensor().reshape(-1, r1[1].shape[-1])[0].tolist()))
+    else:
+        Min = relayout(torch, Min, mem, len(shape))
+        r = call(pp, torch, via, g, Min, check, tol, form)
     if r[0] == 'raise':
-        return '%s(%s matrix of a valid %s, lshape %s, check=%s) raised %s' % (via if via == 'from_matrix' else FNAME[g], lay, g, tuple(shape), check, r[2])
+        return '%s(%s matrix of a valid %s, lshape %s, %s memory, check=%s%s) raised %s' % (fn, lay, g, tuple(shape), mem, check, tol_text(tol, form), r[2])
     Y = r[1]
     if tuple(Y.shape) != tuple(X.shape):
         return 'result shape %s, expected %s' % (tuple(Y.shape), tuple(X.shape))
@@ -282,7 +483,7 @@ def oracle_euler(pp, torch, g, dname, x):
     import mpmath as mp
     mp.mp.dps = 40
     eps = feps(dname)
-    X = pp.LieTensor(torch.tensor(x, dtype=dt(torch, dname)), ltype=getattr(pp, g + '_type'))
+    X = LTH(pp, torch, g, x, dname)           # an object with a history
     try:
         e = X.euler()
     except Exception as ex:
@@ -291,7 +492,7 @@ def oracle_euler(pp, torch, g, dname, x):
     if any(not math.isfinite(v) for v in ev):
         return 'euler returned %s' % ev
     pi = math.pi * (1 + 4 * eps)
-    qf = X.rotation().tensor().tolist()
+    qf = split_elt(g, X.tensor().tolist())[1]          # the raw quaternion, not what rotation() hands out
     t2, c = euler_geometry(qf)
     main = abs(t2) < 1 - EULER_EPS - 1e-6
     # principal ranges are claimed (and proved) on the main branch; on the gimbal branch the code returns
@@ -312,7 +513,7 @@ def oracle_euler(pp, torch, g, dname, x):
 def oracle_euler_batch(pp, torch, g, dname, xs, shp):
     """X.euler() on a batch equals, item by item, X_i.euler() on the single elements (which oracle_euler judges)"""
     G = getattr(pp, g + '_type')
-    Xb = pp.LieTensor(torch.tensor(xs, dtype=dt(torch, dname)).reshape(tuple(shp) + (len(xs[0]),)), ltype=G)
+    Xb = LTH(pp, torch, g, torch.tensor(xs, dtype=dt(torch, dname)).reshape(tuple(shp) + (len(xs[0]),)), dname)
     try:
         eb = Xb.euler()
     except Exception as ex:
@@ -329,16 +530,16 @@ def oracle_euler_batch(pp, torch, g, dname, xs, shp):
     return None
 
 
-def oracle_reject(pp, torch, via, g, dname, M, expect_raise):
+def oracle_reject(pp, torch, via, g, dname, M, expect_raise, tol=None, form='kw'):
     """check=True: matrices beyond the tolerances raise ValueError, valid ones do not"""
     Mt = torch.tensor(M, dtype=dt(torch, dname))
-    r = call(pp, torch, via, g, Mt, True)
+    r = call(pp, torch, via, g, Mt, True, tol, form)
     if expect_raise and r[0] == 'value':
-        return 'check=True accepted a matrix that is not a (scaled) rotation beyond the tolerances'
+        return 'check=True%s accepted a matrix that is not a (scaled) rotation beyond the tolerances' % tol_text(tol, form)
     if expect_raise and not (1 <= r[1] <= 5):
         return 'check=True raised %s instead of ValueError' % r[2]
     if not expect_raise and r[0] == 'raise':
-        return 'check=True raised on a valid matrix: %s' % r[2]
+        return 'check=True%s raised on a valid matrix: %s' % (tol_text(tol, form), r[2])
     return None
 
 
@@ -595,7 +796,7 @@ def enclosure_block(ctx, pp, torch):
         t, s = gen_t(rng), gen_s(rng)
         X = make_X(pp, torch, g, q, t, s, dname)
         x = [float(v) for v in X.tensor().tolist()]
-        qf = X.rotation().tensor().tolist()
+        qf = split_elt(g, x)[1]
         geo = euler_safe(qf, dname)
         if geo is None:
             continue
@@ -746,10 +947,11 @@ def exact_block(ctx, pp, torch):
     rng = ctx.rng
     conv, cmeta, conv_extra = [], [], []
 
-    def add_conv(g, via, lay, check, dname, items):
+    def add_conv(g, via, lay, check, dname, items, tol=None, form='kw'):
         Mt = torch.tensor(items, dtype=dt(torch, dname))
         single = rng.random() < 0.3 and len(items) == 1
-        r = call(pp, torch, via, g, Mt[0] if single else Mt, check)
+        r = call(pp, torch, via, g, Mt[0] if single else Mt, check, tol, form)
+        rt, at = [ATOL if v is None else v for v in (tol or (None, None))]
         rows, cols = len(items[0]), len(items[0][0])
         i = len(cmeta)
         if r[0] == 'value':
@@ -759,10 +961,10 @@ def exact_block(ctx, pp, torch):
             exp = (0, outs)
         else:
             exp = (r[1], [])
-        cmeta.append(dict(kind='exact', g=g, via=via, lay=lay, check=check, dtype=dname, items=items, impl=exp))
+        cmeta.append(dict(kind='exact', g=g, via=via, lay=lay, check=check, dtype=dname, items=items, impl=exp, tol=list(tol) if tol else None, form=form))
         flat = [[v for row in it for v in row] for it in items]
         conv.append('(%d%%nat, (%d%%nat, %s, %d%%nat, %d%%nat), (%s, %s), %s, (%d%%nat, %s))' % (
-            i, GID[g], bl(check), rows, cols, qlit(F(ATOL)), qlit(F(ATOL)), coq_list(qlist(f) for f in flat),
+            i, GID[g], bl(check), rows, cols, qlit(F(rt)), qlit(F(at)), coq_list(qlist(f) for f in flat),
             exp[0] if exp[0] >= 0 else 77, coq_list(qlist(o) for o in exp[1])))
         return i
 
@@ -774,18 +976,21 @@ def exact_block(ctx, pp, torch):
             nb = rng.choice([1, 1, 2, 3])
             items = [embed(rng, gen_disc_matrix(rng, k)[0], lay) for _ in range(nb)]
             dname = 'float64' if j % 4 else 'float32'
-            i = add_conv(g, 'from_matrix' if j % 5 == 0 else 'direct', lay, False, dname, items)
+            # the absolute tolerance doubles as the threshold of the m22 mask: rotate it (m22 <= 0 or >= 1/64 here)
+            tol, form = (None, 'kw') if j % 3 == 0 else ((rng.choice(TIE_TOL64), rng.choice(CONV_ATOL)), rng.choice(['kw', 'pos']))
+            i = add_conv(g, 'from_matrix' if j % 5 == 0 else 'direct', lay, False, dname, items, tol, form)
             if i is not None:
-                ctx.case(('exact', g, lay, dname, str(items)), nontrivial=True, branch='exact:c%d:%s' % (k, dname),
+                ctx.case(('exact', g, lay, dname, str(items), str(tol)), nontrivial=True, branch='exact:c%d:%s:%s' % (k, dname, 'default-tol' if tol is None else 'atol=%g' % tol[1]),
                          sample=dict(cmeta[i]) if (k, j) == (1, 0) else None)
     perms = perm_matrices()
     for (R, q) in perms:
         for g in ('SO3', 'SE3'):
             for lay in ('3x3', '3x4', '4x4'):
                 for dname in ('float64', 'float32'):
-                    i = add_conv(g, rng.choice(['direct', 'from_matrix']), lay, True, dname, [embed(rng, R, lay)])
+                    tol, form = pick_tol(rng, TIE_TOL64 + [0.0], CONV_ATOL)        # exact matrices: every tolerance >= 0 accepts them
+                    i = add_conv(g, rng.choice(['direct', 'from_matrix']), lay, True, dname, [embed(rng, R, lay)], tol, form)
                     if i is not None:
-                        ctx.case(('exact-perm', g, lay, dname, str(R)), nontrivial=q != [0.0, 0.0, 0.0, 1.0], branch='exact:hurwitz:%s' % dname)
+                        ctx.case(('exact-perm', g, lay, dname, str(R), str(tol)), nontrivial=q != [0.0, 0.0, 0.0, 1.0], branch='exact:hurwitz:%s:%s' % (dname, tol_class(tol)))
     # unaccepted shapes / unknown ltype
     for (rows, cols) in [(2, 2), (3, 2), (4, 3), (2, 4), (5, 5), (3, 5)]:
         for g in GROUPS[:2]:
@@ -802,9 +1007,13 @@ def exact_block(ctx, pp, torch):
         nb = rng.choice([1, 1, 2, 3])
         dname = 'float64' if j % 3 else 'float32'
         items, cls = [], []
+        pool = TIE_TOL64 if dname == 'float64' else TIE_TOL32
+        tol, form = pick_tol(rng, pool + ([0.0] if dname == 'float64' else []), pool)
+        rt, at = [ATOL if v is None else v for v in (tol or (None, None))]
         for _ in range(nb):
             it, c = gen_check_item(rng, perms, lambda M, dn=dname: torch.tensor(M, dtype=dt(torch, dn)).tolist(),
-                                   Fraction(1, 1000) if dname == 'float64' else Fraction(1, 8))
+                                   Fraction(1, 1000) if dname == 'float64' else Fraction(1, 8), Fraction(rt), Fraction(at),
+                                   Fraction((16 if dname == 'float64' else 8) * feps(dname)))
             if it is None:
                 break
             items.append(it)
@@ -814,21 +1023,21 @@ def exact_block(ctx, pp, torch):
         code = 2 if 'orth' in cls else (3 if 'det' in cls else 0)
         Mt = torch.tensor(items, dtype=dt(torch, dname))
         via, g = rng.choice([('direct', 'SO3'), ('direct', 'SE3'), ('from_matrix', 'SO3')])
-        r = call(pp, torch, via, g, Mt, True)
+        r = call(pp, torch, via, g, Mt, True, tol, form)
         got = 0 if r[0] == 'value' else r[1]
         i = len(kmeta)
-        kmeta.append(dict(kind='check', g=g, via=via, dtype=dname, items=items, classes=cls, impl=got))
-        ctx.case(('check', dname, str(items)), nontrivial=True, branch='check:%s:%s' % ('+'.join(sorted(set(cls))), 'raise' if got else 'pass'),
+        kmeta.append(dict(kind='check', g=g, via=via, dtype=dname, items=items, classes=cls, impl=got, tol=list(tol) if tol else None, form=form))
+        ctx.case(('check', dname, str(items), str(tol)), nontrivial=True, branch='check:%s:%s:%s' % ('+'.join(sorted(set(cls))), 'raise' if got else 'pass', tol_class(tol)),
                  sample=dict(kmeta[i]) if j == 5 else None)
         flat = [[v for row in it for v in row] for it in items]
-        chk.append('(%d%%nat, (%s, %s), %s, %d%%nat)' % (i, qlit(F(ATOL)), qlit(F(ATOL)), coq_list(qlist(f) for f in flat), got if got >= 0 else 77))
+        chk.append('(%d%%nat, (%s, %s), %s, %d%%nat)' % (i, qlit(F(rt)), qlit(F(at)), coq_list(qlist(f) for f in flat), got if got >= 0 else 77))
         if got != code:
             # generator's exact classification disagrees with the implementation: the property's clause itself
             exp_raise = code != 0
-            why = oracle_reject(pp, torch, via, g, dname, items, exp_raise)
+            why = oracle_reject(pp, torch, via, g, dname, items, exp_raise, tol, form)
             if why:
                 ctx.violation('check:%s:%s' % (FNAME[g], 'accepts-invalid' if exp_raise else 'rejects-valid'), why + ' (batch classes %s)' % cls,
-                              dict(kind='check', g=g, via=via, dtype=dname, items=items, expect_raise=exp_raise))
+                              dict(kind='check', g=g, via=via, dtype=dname, items=items, expect_raise=exp_raise, tol=list(tol) if tol else None, form=form))
     files += [('chk_%03d' % k, LIE_HEADER.replace('Model.LieGroup.', 'Model.LieGroup Model.Convert.') + 'Eval vm_compute in check_bad %s.\n' % coq_list(sh))
               for k, sh in enumerate(shard(chk, 200))]
     # the scaled groups on an empty batch (regression of the empty-batch defect repaired in 988caf7): the model
@@ -865,9 +1074,11 @@ def exact_block(ctx, pp, torch):
                 ctx.violation(key_for(m), why, m)
 
 
-def gen_check_item(rng, perms, rnd, margin):
-    """(3x3 dyadic-ish matrix, class) with class in {'ok', 'orth', 'det'} decided in exact arithmetic,
-    away from the tolerance boundary (relative margin 1e-3)"""
+def gen_check_item(rng, perms, rnd, margin, rt=Fraction(ATOL), at=Fraction(ATOL), slack=Fraction(0)):
+    """(3x3 dyadic-ish matrix, class) with class in {'ok', 'orth', 'det'} decided in exact arithmetic by the
+    documented inequalities  |M M^T - I|_ij <= atol + rtol I_ij,  |det M - 1| <= atol + rtol,  away from the
+    tolerance boundary (relative margin, plus the rounding of the floating evaluation unless the matrix is a
+    signed permutation matrix, for which the evaluation is exact and even zero tolerances are decided)"""
     for _ in range(50):
         R, _q = rng.choice(perms)
         kind = rng.choice(['exact', 'perturb', 'perturb', 'perturb', 'reflect', 'scaled', 'random'])
@@ -886,24 +1097,53 @@ def gen_check_item(rng, perms, rnd, margin):
             M = [[dy6(rng) for _ in range(3)] for _ in range(3)]
         M = rnd(M)
         A = fr_mat(M)
-        at = Fraction(ATOL)
+        sl = 0 if kind in ('exact', 'reflect') else slack
         near = False
         orth = False
         for i in range(3):
             for j in range(3):
                 e = sum(A[i][k] * A[j][k] for k in range(3)) - (1 if i == j else 0)
-                thr = at + (at if i == j else 0)
-                if abs(abs(e) - thr) < thr * margin:
+                thr = at + (rt if i == j else 0)
+                if abs(abs(e) - thr) < thr * margin + sl:
                     near = True
                 if abs(e) > thr:
                     orth = True
         d = abs(fdet3(A) - 1)
-        if abs(d - 2 * at) < 2 * at * margin:
+        if abs(d - (at + rt)) < (at + rt) * margin + sl:
             near = True
         if near:
             continue
-        return M, ('orth' if orth else ('det' if d > 2 * at else 'ok'))
+        return M, ('orth' if orth else ('det' if d > at + rt else 'ok'))
     return None, None
+
+
+# tolerance arguments: exactly representable (every float is a rational: the model receives the very numbers)
+TIE_TOL64 = [1e-5, 2.0 ** -12, 2.0 ** -17, 2.0 ** -22, 2.0 ** -27, 1e-7, 1e-3, 3e-6]
+TIE_TOL32 = [1e-5, 2.0 ** -12, 2.0 ** -14, 1e-4, 1e-3, 3e-5]
+CONV_ATOL = [1e-5, 2.0 ** -10, 2.0 ** -20, 1e-3, 2.0 ** -7, 1e-9]
+
+
+def pick_tol(rng, rpool, apool):
+    """(tol, form): a third of the calls leave the tolerances at their defaults, the others pass rtol != atol
+    (or only one of them) by keyword or by position"""
+    r = rng.random()
+    if r < 0.3:
+        return None, rng.choice(['kw', 'pos'])
+    rt, at = rng.choice(rpool), rng.choice(apool)
+    while rt == at and r < 0.9:
+        rt = rng.choice(rpool)
+    if r > 0.93:
+        return rng.choice([(rt, None), (None, at)]), 'kw'
+    return (rt, at), rng.choice(['kw', 'pos'])
+
+
+def tol_class(tol):
+    if tol is None:
+        return 'tol=default'
+    rt, at = tol
+    if rt is None or at is None:
+        return 'tol=one-given'
+    return 'rtol%satol' % ('<' if rt < at else ('>' if rt > at else '='))
 
 
 def shape_block(ctx, pp, torch, shapes):
@@ -1017,6 +1257,10 @@ def code_block(ctx, pp, torch):
 
 
 # ------------------------------------------------------------------------------ sweep: the property on the implementation
+VALID_TOL = {'float64': [(0.0, 1e-9), (1e-3, 1e-11), (1e-10, 1e-2), (0.0, 1e-5), (1e-12, 0.05), (1e-2, 1e-10), (None, 1e-8), (1e-9, None), (1e-7, 1e-3)],
+             'float32': [(0.0, 1e-5), (1e-3, 1e-5), (1e-5, 1e-2), (0.0, 1e-3), (1e-2, 2e-5), (None, 1e-4), (1e-3, None), (1e-6, 0.05)]}
+
+
 def sweep_block(ctx, pp, torch):
     rng = ctx.rng
     n = ctx.scale(4000, 60000)
@@ -1030,9 +1274,16 @@ def sweep_block(ctx, pp, torch):
         check = rng.random() < 0.6
         q, t, s = gen_quat(rng, kind), gen_t(rng), gen_s(rng)
         sh = rng.choice(shapes)
-        rec = dict(kind='mat2x', via=via, g=g, dtype=dname, lay=lay, check=check, q=q, t=t, s=s, qkind=kind, shape=list(sh))
-        ctx.case(('sweep', via, g, dname, lay, check, tuple(q), tuple(t), s, sh), nontrivial=abs(abs(q[3]) - 1) > 1e-12, branch='sweep:%s:%s' % (g, kind))
-        why = oracle_roundtrip(pp, torch, via, g, dname, lay, check, q, t, s, sh)
+        # tolerances every float matrix of a valid element satisfies (rounding of X.matrix() is a few eps): rtol != atol,
+        # one of them zero, one left at its default, by keyword or by position
+        # (scaled groups: the documented |s| > atol, scales go down to 1e-3)
+        tol, form = (None, 'kw') if j % 2 else (rng.choice([v for v in VALID_TOL[dname] if g in ('SO3', 'SE3') or (v[1] or ATOL) <= 1e-4]), rng.choice(['kw', 'pos']))
+        mem = MEM_SET[(j // 4) % len(MEM_SET)] if j < 8 * len(MEM_SET) else rng.choice(MEM_SET)
+        rec = dict(kind='mat2x', via=via, g=g, dtype=dname, lay=lay, check=check, q=q, t=t, s=s, qkind=kind, shape=list(sh), tol=list(tol) if tol else None, form=form, mem=mem)
+        ctx.case(('sweep', via, g, dname, lay, check, tuple(q), tuple(t), s, sh, tol, form, mem), nontrivial=abs(abs(q[3]) - 1) > 1e-12, branch='sweep:%s:%s' % (g, kind))
+        ctx.count('sweep:%s:%s' % (tol_class(tol), form))
+        ctx.count('sweep:memory:' + mem)
+        why = oracle_roundtrip(pp, torch, via, g, dname, lay, check, q, t, s, sh, tol, form, mem)
         if why:
             ctx.violation(key_for(rec), why, rec)
     for j in range(ctx.scale(1000, 12000)):
@@ -1093,6 +1344,392 @@ def sweep_block(ctx, pp, torch):
             ctx.violation(key_for(rec), why, rec)
 
 
+# ------------------------------------------------------------------------------ tolerance arguments (documented inequalities)
+TOL64 = [0.0, 1e-12, 1e-9, 1e-7, 1e-6, 1e-5, 2.0 ** -13, 1e-4, 1e-3, 2.0 ** -7, 1e-2, 0.05]
+TOL32 = [0.0, 1e-5, 3e-5, 2.0 ** -13, 1e-4, 1e-3, 2.0 ** -7, 1e-2, 0.05]
+
+
+def mp_classify(g, dname, M, rt, at, exact_eval=False):
+    """one 3x3 block (floats) against the documented rule, 50 digits:
+         scaled groups: s = cbrt(det M), |s| > atol, N = M / s;  otherwise N = M;
+         |N N^T - I|_ij <= atol + rtol I_ij  and  |det N - 1| <= atol + rtol.
+    -> ('ok' | 'rank' | 'orth' | 'det' | 'near', worst excess).  'near' = too close to a boundary to be decided
+    independently of rounding (5 % relative + 16 eps absolute; nothing absolute when the floating evaluation is exact)"""
+    import mpmath as mp
+    mp.mp.dps = 50
+    eps = feps(dname)
+    sl = mp.mpf(0) if exact_eval else mp.mpf(16 * eps)
+    rel = mp.mpf(0) if exact_eval else mp.mpf('0.05')
+    A = [[mp_num(v) for v in row] for row in M]
+    det = (A[0][0] * (A[1][1] * A[2][2] - A[1][2] * A[2][1]) - A[0][1] * (A[1][0] * A[2][2] - A[1][2] * A[2][0])
+           + A[0][2] * (A[1][0] * A[2][1] - A[1][1] * A[2][0]))
+    rt, at = mp_num(rt), mp_num(at)
+    near = False
+    if g in ('RxSO3', 'Sim3'):
+        if det <= 0:
+            return ('orth', None) if det < -sl else ('near', None)      # no positive scale exists: not a scaled rotation
+        sc = mp.cbrt(det)
+        if abs(sc - at) < at * rel + sl * sc:
+            return ('near', None)
+        if sc <= at:
+            return ('rank', None)
+        A = [[v / sc for v in row] for row in A]
+        det = mp.mpf(1)
+    res = 'ok'
+    for i in range(3):
+        for j in range(3):
+            e = abs(sum(A[i][k] * A[j][k] for k in range(3)) - (1 if i == j else 0))
+            thr = at + (rt if i == j else 0)
+            if abs(e - thr) < thr * rel + sl:
+                near = True
+            if e > thr:
+                res = 'orth'
+    d = abs(det - 1)
+    if abs(d - (at + rt)) < (at + rt) * rel + sl and g not in ('RxSO3', 'Sim3'):
+        near = True
+    if res == 'ok' and d > at + rt:
+        res = 'det'
+    return ('near', None) if near else (res, None)
+
+
+def exact_rotation(rng, perms):
+    """(3x3 rotation as floats rounded from exact arithmetic - no pypose involved, is it a signed permutation matrix)"""
+    if rng.random() < 0.4:
+        R, _q = rng.choice(perms)
+        return [list(r) for r in R], True
+    q = gen_quat(rng, rng.choice(['uniform', 'uniform', 'c0', 'c1', 'c2', 'near-pi', 'axis']))
+    n = math.sqrt(sum(Fraction(v) ** 2 for v in q))
+    R = ref_matrix('SO3', [Fraction(v / n) for v in q])
+    return [[float(R[3 * i + j]) for j in range(3)] for i in range(3)], False
+
+
+def tol_item(rng, perms, g, rt, at, kind, single):
+    """one 3x3 block  s (I + E) R  whose defect E is sized between two of the thresholds the tolerances define
+    (atol, rtol, atol + rtol, the defaults), so that exchanging, dropping or defaulting a tolerance changes its class"""
+    R, isperm = exact_rotation(rng, perms)
+    cands = sorted({v for v in (at, rt, at + rt, ATOL, 2 * ATOL) if v > 0})
+    k = rng.randrange(len(cands) + 1)
+    if k == 0:
+        target = cands[0] / rng.choice([3.0, 10.0, 100.0])
+    elif k == len(cands):
+        target = cands[-1] * rng.choice([3.0, 10.0])
+    else:
+        target = math.sqrt(cands[k - 1] * cands[k])
+    target = min(target, 0.3)
+    E = [[0.0] * 3 for _ in range(3)]
+    i, j = rng.sample(range(3), 2)
+    sgn = rng.choice([1, -1])
+    if kind == 'offdiag':
+        E[i][j] = sgn * target
+    elif kind == 'diag':
+        E[i][i] = sgn * target / 2
+    elif kind == 'uniform':
+        for a in range(3):
+            E[a][a] = sgn * target / 2
+    elif kind == 'dense':
+        for a in range(3):
+            for b in range(3):
+                E[a][b] = rng.uniform(-1, 1) * target / 3
+    M = [[sum(((1.0 if a == c else 0.0) + E[a][c]) * R[c][b] for c in range(3)) for b in range(3)] for a in range(3)]
+    if kind == 'reflect':
+        M[i] = [-v for v in M[i]]
+    s = 1.0
+    if g in ('RxSO3', 'Sim3'):
+        s = rng.choice([1.0, 0.5, 2.0, 8.0]) if rng.random() < 0.4 else gen_s(rng)
+        if single and at > 0 and rng.random() < 0.25:
+            s = at * rng.choice([0.3, 0.6, 2.0, 5.0])          # the documented |s| > atol
+        elif not single:
+            s = max(s, 4 * at)
+        M = [[s * v for v in row] for row in M]
+    return M, (isperm and kind in ('valid', 'reflect') and s in (1.0, 0.5, 2.0, 8.0) and g in ('SO3', 'SE3'))
+
+
+def oracle_tol(pp, torch, c):
+    """the rejection / acceptance clause with the caller's tolerances: expectation = documented inequalities
+    evaluated in 50-digit arithmetic on the very floats handed over (c['blocks'] 3x3, c['t'] translations)"""
+    g, dname, lay, rt, at = c['g'], c['dtype'], c['lay'], c['rtol'], c['atol']
+    tol = (None if c.get('rt_default') else rt, None if c.get('at_default') else at)
+    if tol == (None, None):
+        tol = None
+    cls = [mp_classify(g, dname, B, rt, at, ex)[0] for B, ex in zip(c['blocks'], c['exact'])]
+    if 'near' in cls:
+        return None
+    items = []
+    for B, t in zip(c['blocks'], c['t']):
+        rows = [list(B[i]) + ([t[i]] if lay != '3x3' else []) for i in range(3)]
+        if lay == '4x4':
+            rows.append([0.0, 0.0, 0.0, 1.0])
+        items.append(rows)
+    Mt = torch.tensor(items, dtype=dt(torch, dname))
+    if c.get('single'):
+        Mt = Mt[0]
+    fn = fname_of(c['via'], g)
+    r = call(pp, torch, c['via'], g, Mt, True, tol, c['form'])
+    illegal = [k for k, v in enumerate(cls) if v != 'ok']
+    head = '%s(%s %s%s, check=True%s)' % (fn, dname, lay, '' if c.get('single') else ' batch of %d' % len(items), tol_text(tol, c['form']))
+    if illegal and r[0] == 'value':
+        k = illegal[0]
+        return ('%s accepted item %d = %s, which the documented rule (|N N^T - I| <= atol + rtol I, |det N - 1| <= atol + rtol%s) with rtol=%r, atol=%r classifies as "%s"'
+                % (head, k, c['blocks'][k], ', |s| > atol, N = M / s' if g in ('RxSO3', 'Sim3') else '', rt, at, cls[k]))
+    if illegal and not (1 <= r[1] <= 5):
+        return '%s raised %s instead of ValueError' % (head, r[2])
+    if not illegal and r[0] == 'raise':
+        return '%s raised %s although every item satisfies the documented inequalities with rtol=%r, atol=%r (blocks %s)' % (head, r[2], rt, at, c['blocks'][:2])
+    if not illegal:
+        Y = r[1]
+        yd = Y.tensor().reshape(-1, Y.shape[-1])
+        if yd.shape[0] != len(items) or not bool(torch.isfinite(yd).all()):
+            return '%s returned %s' % (head, yd.tolist()[:2])
+    return None
+
+
+def tol_block(ctx, pp, torch):
+    rng = ctx.rng
+    perms = perm_matrices()
+    kinds = ['offdiag', 'offdiag', 'diag', 'uniform', 'dense', 'reflect', 'valid']
+    n = ctx.scale(1400, 12000)
+    decided = 0
+    for j in range(n):
+        g = GROUPS[j % 4]
+        dname = 'float64' if j % 5 else 'float32'
+        pool = TOL64 if dname == 'float64' else TOL32
+        rt, at = rng.choice(pool), rng.choice(pool)
+        while rt == at and rng.random() < 0.9:
+            rt = rng.choice(pool)
+        if dname == 'float32' and at == 0 and rt == 0:
+            at = 1e-5
+        form = rng.choice(['kw', 'kw', 'pos'])
+        rtd = atd = False
+        if rng.random() < 0.12:                 # only one tolerance handed over, the other stays at its documented default
+            form = 'kw'
+            if rng.random() < 0.5:
+                rt, rtd = ATOL, True
+            else:
+                at, atd = ATOL, True
+        nb = rng.choice([1, 1, 1, 2, 3])
+        single = nb == 1 and rng.random() < 0.5
+        blocks, exact = [], []
+        for b in range(nb):
+            kind = rng.choice(kinds) if (b == 0 or rng.random() < 0.3) else 'valid'
+            B, ex = tol_item(rng, perms, g, rt, at, kind, nb == 1)
+            B = torch.tensor(B, dtype=dt(torch, dname)).tolist()
+            blocks.append(B)
+            exact.append(ex)
+        order = list(range(nb))
+        rng.shuffle(order)
+        blocks, exact = [blocks[k] for k in order], [exact[k] for k in order]
+        rec = dict(kind='tol', g=g, via='from_matrix' if rng.random() < 0.4 else 'direct', dtype=dname, lay=rng.choice(['3x3', '3x4', '4x4']),
+                   form=form, rtol=rt, atol=at, rt_default=rtd, at_default=atd, single=single, blocks=blocks, exact=exact,
+                   t=[torch.tensor(gen_t(rng), dtype=dt(torch, dname)).tolist() for _ in range(nb)])
+        cls = [mp_classify(g, dname, B, rt, at, ex)[0] for B, ex in zip(blocks, exact)]
+        if 'near' in cls:
+            ctx.count('tol:undecidable-skipped')
+            continue
+        decided += 1
+        ctx.case(('tol', g, dname, rt, at, str(blocks)), nontrivial=True,
+                 branch='tol:%s:%s:%s' % (g, tol_class((rt, at)) if not (rtd or atd) else 'one-given', '+'.join(sorted(set(cls)))))
+        why = oracle_tol(pp, torch, rec)
+        if why:
+            ctx.violation(key_for(rec), why, rec)
+    ctx.notes.append('tolerance block: %d of %d generated batches decided by the documented inequalities' % (decided, n))
+
+
+# ------------------------------------------------------------------------------ histories on one object
+HOPS = ['copy_', 'setitem-all', 'setitem-some', 'setitem-slice', 'add_', 'identity_', 'tensor-view', 'data', 'deepcopy', 'rows-from-self']
+
+
+def apply_hop(pp, torch, g, X, op, payload, dname):
+    """one in-place update of X (payload: nested lists); returns the object to go on with"""
+    G, d = getattr(pp, g + '_type'), dt(torch, dname)
+    if op == 'copy_':
+        X.copy_(pp.LieTensor(torch.tensor(payload, dtype=d).reshape(X.shape), ltype=G))
+    elif op == 'setitem-all':
+        X[...] = pp.LieTensor(torch.tensor(payload, dtype=d).reshape(X.shape), ltype=G)
+    elif op == 'setitem-some':
+        for i, row in payload:
+            Y = pp.LieTensor(torch.tensor(row, dtype=d), ltype=G)
+            if X.dim() > 1:
+                idx, rem = [], i
+                for v in reversed(X.shape[:-1]):
+                    idx.append(rem % v)
+                    rem //= v
+                X[tuple(reversed(idx))] = Y
+            else:
+                X[...] = Y
+    elif op == 'setitem-slice':
+        Y = pp.LieTensor(torch.tensor(payload, dtype=d).reshape(X.shape), ltype=G)
+        if X.dim() > 1:
+            X[1:] = Y[1:]
+            X[:1] = Y[:1]
+        else:
+            X[:] = Y
+    elif op == 'add_':
+        X.add_(torch.tensor(payload, dtype=d).reshape(tuple(X.shape[:-1]) + (ADIM[g],)))
+    elif op == 'identity_':
+        try:
+            X.identity_()
+        except NotImplementedError:
+            X.copy_(G.identity(*X.shape[:-1], dtype=d))
+    elif op == 'tensor-view':
+        X.tensor().copy_(torch.tensor(payload, dtype=d).reshape(X.shape))
+    elif op == 'data':
+        X.data.copy_(torch.tensor(payload, dtype=d).reshape(X.shape))
+    elif op == 'deepcopy':
+        X = copy.deepcopy(X)
+        X.copy_(pp.LieTensor(torch.tensor(payload, dtype=d).reshape(X.shape), ltype=G))
+    elif op == 'rows-from-self':
+        if X.dim() > 1 and X.shape[0] > 1:
+            X[0] = X[-1].clone()
+    else:
+        raise ValueError(op)
+    return X
+
+
+def same_bits(torch, a, b):
+    return tuple(a.shape) == tuple(b.shape) and a.dtype == b.dtype and bool(((a == b) | (a.isnan() & b.isnan())).all())
+
+
+def judge_object(pp, torch, g, X, dname, how):
+    """every conversion of X as it is NOW: X.matrix() against the exact matrix of the raw components; matrix / euler /
+    rotation / translation / scale bit for bit what a freshly constructed LieTensor with the same components gives;
+    from_matrix(X.matrix()) is X (quaternion up to sign, translation, scale)."""
+    eps = feps(dname)
+    G = getattr(pp, g + '_type')
+    raw = X.tensor().clone()
+    fresh = pp.LieTensor(raw.clone(), ltype=G)
+    try:
+        M = X.matrix()
+    except Exception as ex:
+        return 'X.matrix() %s raised %r' % (how, ex)
+    why = matrix_defect(torch, g, X, M, dname)
+    if why:
+        return 'X.matrix() %s: %s' % (how, why)
+    for name in ('matrix', 'euler', 'rotation', 'translation', 'scale'):
+        try:
+            a, b = getattr(X, name)(), getattr(fresh, name)()
+        except Exception as ex:
+            return 'X.%s() %s raised %r' % (name, how, ex)
+        a, b = torch.Tensor.as_subclass(a, torch.Tensor), torch.Tensor.as_subclass(b, torch.Tensor)
+        if not same_bits(torch, a, b):
+            k = int((~((a == b) | (a.isnan() & b.isnan()))).reshape(-1).nonzero()[0]) if tuple(a.shape) == tuple(b.shape) else 0
+            return ('X.%s() %s gives %s (flat entry %d), a freshly constructed %s with the same components %s gives %s'
+                    % (name, how, a.reshape(-1)[k].item() if a.numel() else a.shape, k, g, raw.reshape(-1, raw.shape[-1])[0].tolist(), b.reshape(-1)[k].item() if b.numel() else b.shape))
+    if not same_bits(torch, X.tensor(), raw):
+        return 'the conversions %s changed the components of X' % how
+    if X.numel() == 0:
+        return None
+    r = call(pp, torch, 'from_matrix', g, M, True)
+    if r[0] == 'raise':
+        return 'from_matrix(X.matrix()) %s raised %s' % (how, r[2])
+    ys, xs = r[1].tensor().reshape(-1, X.shape[-1]).tolist(), raw.reshape(-1, X.shape[-1]).tolist()
+    for i, (y, x) in enumerate(zip(ys, xs)):
+        ty, qy, sy = split_elt(g, y)
+        tx, qx, sx = split_elt(g, x)
+        n = math.sqrt(sum(v * v for v in qx))
+        eq = min(max(abs(a - b / n) for a, b in zip(qy, qx)), max(abs(a + b / n) for a, b in zip(qy, qx)))
+        if not (eq <= K_EPS * eps) or list(ty) != list(tx) or not (abs(sy - sx * n * n) <= 2 * K_EPS * eps * abs(sx)):
+            return 'from_matrix(X.matrix()) %s: item %d is %s but X holds %s' % (how, i, y, x)
+    return None
+
+
+def gen_rows(rng, pp, torch, g, dname, n):
+    rows = []
+    for _ in range(n):
+        X = make_X(pp, torch, g, gen_quat(rng, rng.choice(QKINDS)), gen_t(rng), gen_s(rng), dname, 'fresh')
+        rows.append([float(v) for v in X.tensor().tolist()])
+    return rows
+
+
+def run_history(pp, torch, c):
+    """replayable: c = dict(g, dtype, shape, x0, ops=[[name, payload], ...]); judged after every update"""
+    g, dname, shape = c['g'], c['dtype'], tuple(c['shape'])
+    G, d = getattr(pp, g + '_type'), dt(torch, dname)
+    X = pp.LieTensor(torch.tensor(c['x0'], dtype=d).reshape(shape + (GDIM[g],)), ltype=G)
+    why = judge_object(pp, torch, g, X, dname, 'of a new object')
+    if why:
+        c['failed_at'] = 'new'
+        return why
+    done = []
+    for name, payload in c['ops']:
+        X = apply_hop(pp, torch, g, X, name, payload, dname)
+        done.append(name)
+        why = judge_object(pp, torch, g, X, dname, 'after the conversions were taken and then X was updated in place by %s' % ' -> '.join(done))
+        if why:
+            c['failed_at'] = name
+            return why
+    return None
+
+
+def shrink_history(pp, torch, c):
+    """a smaller record that still fails: updates after the failing one dropped, a single element instead of the batch,
+    earlier updates dropped one by one (each candidate is re-run; the original is kept when none fails)"""
+    def fails(r):
+        try:
+            return run_history(pp, torch, r) is not None
+        except Exception:
+            return False
+    best = dict(c)
+    names = [o[0] for o in best['ops']]
+    if best.get('failed_at') in names:
+        cand = dict(best, ops=best['ops'][:names.index(best['failed_at']) + 1])
+        if fails(cand):
+            best = cand
+    if best['shape'] != [] and all(o[0] != 'rows-from-self' for o in best['ops']):
+        ops = []
+        for name, payload in best['ops']:
+            if name == 'setitem-some':
+                payload = [[0, payload[0][1]]]
+            elif payload is not None:
+                payload = payload[:1]
+            ops.append([name, payload])
+        cand = dict(best, shape=[], x0=best['x0'][:1], ops=ops)
+        if fails(cand):
+            best = cand
+    k = 0
+    while len(best['ops']) > 1 and k < len(best['ops']) - 1:
+        cand = dict(best, ops=best['ops'][:k] + best['ops'][k + 1:])
+        if fails(cand):
+            best = cand
+        else:
+            k += 1
+    return best
+
+
+def history_block(ctx, pp, torch):
+    rng = ctx.rng
+    shapes = [(), (1,), (3,), (4,), (2, 2), (2, 3), (3, 1)]
+    for j in range(ctx.scale(260, 2500)):
+        g = GROUPS[j % 4]
+        dname = 'float64' if j % 3 else 'float32'
+        shape = shapes[(j // 4) % len(shapes)] if j < 8 * len(shapes) else rng.choice(shapes)
+        n = 1
+        for v in shape:
+            n *= v
+        ops = []
+        for k in range(rng.choice([1, 2, 2, 3])):
+            name = HOPS[(j + 3 * k) % len(HOPS)] if j < 4 * len(HOPS) else rng.choice(HOPS)
+            if name == 'add_':
+                payload = [[rng.gauss(0, 0.4) for _ in range(ADIM[g])] for _ in range(n)]
+                if g in ('RxSO3', 'Sim3'):
+                    for row in payload:
+                        row[-1] = rng.uniform(-0.5, 0.5)
+            elif name == 'setitem-some':
+                payload = [[i, gen_rows(rng, pp, torch, g, dname, 1)[0]] for i in sorted(rng.sample(range(n), rng.randint(1, n)))]
+            elif name in ('identity_', 'rows-from-self'):
+                payload = None
+            else:
+                payload = gen_rows(rng, pp, torch, g, dname, n)
+            ops.append([name, payload])
+        rec = dict(kind='hist', g=g, dtype=dname, shape=list(shape), x0=gen_rows(rng, pp, torch, g, dname, n), ops=ops)
+        ctx.case(('hist', g, dname, shape, str(rec['x0']), str(ops)), nontrivial=True, branch='history:%s:%s' % (g, '+'.join(o[0] for o in ops)))
+        why = run_history(pp, torch, rec)
+        if why:
+            if len(ctx.violations) < 40:
+                rec = shrink_history(pp, torch, rec)
+                why = run_history(pp, torch, rec) or why
+            ctx.violation(key_for(rec), why, rec)
+
+
 # ------------------------------------------------------------------------------ keys, replay, run
 def key_for(m):
     k = m['kind']
@@ -1105,6 +1742,14 @@ def key_for(m):
         if m['g'] in ('Sim3', 'RxSO3') and 0 in sh:
             return KEY_EMPTY % FNAME[m['g']]
         return 'roundtrip:%s:%s:%s' % (FNAME[m['g']], m['dtype'], m.get('qkind', 'x'))
+    if k == 'tol':
+        return 'tolerance:%s:%s:%s' % (fname_of(m['via'], m['g']), m['dtype'], 'one-given' if (m.get('rt_default') or m.get('at_default')) else tol_class((m['rtol'], m['atol'])))
+    if k == 'hist':
+        return 'history:%s:%s:%s' % (m['g'], m['dtype'], m.get('failed_at') or (m['ops'][-1][0] if m['ops'] else 'new'))
+    if k == 'mutation':
+        return 'mutation:%s' % fname_of(m['via'], m['g'])
+    if k == 'install':
+        return 'history:%s:in-place-%s' % (m['g'], m['op'])
     if k in ('exact',):
         return 'exact:%s:%s:%s' % (FNAME[m['g']], m['dtype'], m['lay'])
     if k == 'check':
@@ -1131,7 +1776,28 @@ def replay(ctx, c):
     import torch
     k = c['kind']
     if k == 'mat2x':
-        return oracle_roundtrip(pp, torch, c['via'], c['g'], c['dtype'], c['lay'], c['check'], c['q'], c['t'], c['s'], tuple(c.get('shape') or ()))
+        tol = c.get('tol')
+        return oracle_roundtrip(pp, torch, c['via'], c['g'], c['dtype'], c['lay'], c['check'], c['q'], c['t'], c['s'], tuple(c.get('shape') or ()),
+                                tuple(tol) if tol else None, c.get('form', 'kw'), c.get('mem'))
+    if k == 'tol':
+        return oracle_tol(pp, torch, c)
+    if k == 'hist':
+        return run_history(pp, torch, c)
+    if k == 'mutation':
+        Mt = torch.tensor(c['M'], dtype=dt(torch, c['dtype']))
+        before = Mt.clone()
+        call(pp, torch, c['via'], c['g'], Mt, c['check'], tuple(c['tol']) if c.get('tol') else None, c.get('form', 'kw'))
+        del MUTATED[:]
+        if not same_bits(torch, Mt, before):
+            k_ = int((~((Mt == before) | (Mt.isnan() & before.isnan()))).reshape(-1).nonzero()[0]) if Mt.shape == before.shape else 0
+            return '%s changed its argument in place: flat entry %d was %r, is %r after the call' % (fname_of(c['via'], c['g']), k_, before.reshape(-1)[k_].item(), Mt.reshape(-1)[k_].item())
+        return None
+    if k == 'install':
+        X = LTH(pp, torch, c['g'], c['x'], c['dtype'], c['op'])
+        del INSTALL_FAILED[:]
+        if not torch.equal(X.tensor(), torch.tensor(c['x'], dtype=dt(torch, c['dtype']))):
+            return '%s did not give X the components of Y: X holds %s' % (HIST_TEXT[c['op']], X.tensor().reshape(-1, X.shape[-1])[0].tolist())
+        return None
     if k == 'e2s':
         return oracle_euler2SO3(pp, torch, c['dtype'], c['e'])
     if k == 'euler-batch':
@@ -1152,7 +1818,7 @@ def replay(ctx, c):
         exp_raise = c.get('expect_raise')
         if exp_raise is None:
             exp_raise = any(x != 'ok' for x in c['classes'])
-        return oracle_reject(pp, torch, c['via'], c['g'], c['dtype'], c['items'], exp_raise)
+        return oracle_reject(pp, torch, c['via'], c['g'], c['dtype'], c['items'], exp_raise, tuple(c['tol']) if c.get('tol') else None, c.get('form', 'kw'))
     if k == 'exact':
         # dyadic matrix, check off: exact Fraction evaluation of the documented formula of the selected region
         return oracle_exact(pp, torch, c)
@@ -1166,10 +1832,11 @@ def oracle_exact(pp, torch, c):
     Shepperd extraction), for exact rotations the matrix itself"""
     if c['check']:
         Mt = torch.tensor(c['items'], dtype=dt(torch, c['dtype']))
-        r = call(pp, torch, c['via'], c['g'], Mt, True)
+        tol = tuple(c['tol']) if c.get('tol') else None
+        r = call(pp, torch, c['via'], c['g'], Mt, True, tol, c.get('form', 'kw'))
         if r[0] == 'raise':
             if c['lay'] in ('3x3', '3x4', '4x4'):
-                return 'raised %s on exact rotation matrices' % r[2]
+                return '%s(check=True%s) raised %s on exact rotation matrices %s' % (fname_of(c['via'], c['g']), tol_text(tol, c.get('form', 'kw')), r[2], c['items'][:1])
             return None if r[1] == 1 else 'unaccepted shape %s raised %s instead of the size ValueError' % (c['lay'], r[2])
         if c['lay'] not in ('3x3', '3x4', '4x4'):
             return 'unaccepted shape %s was accepted' % c['lay']
@@ -1191,3 +1858,11 @@ def run(ctx):
     enclosure_block(ctx, pp, torch)
     code_block(ctx, pp, torch)
     sweep_block(ctx, pp, torch)
+    tol_block(ctx, pp, torch)
+    history_block(ctx, pp, torch)
+    # every call above compared its tensor argument before / after; every in-place installation was verified
+    for rec in list(MUTATED) + list(INSTALL_FAILED):
+        why = replay(ctx, dict(rec))
+        if why:
+            ctx.violation(key_for(rec), why, rec)
+    del MUTATED[:], INSTALL_FAILED[:]
